@@ -36,30 +36,52 @@ Definition final_matches (t : store) (x : aux_t) (o : observed) : bool :=
   forallb (fun p => Bool.eqb (al x (fst p)) (snd p)) (o_al o) &&
   forallb (fun p => Bool.eqb (als x (fst (fst p)) (snd (fst p))) (snd p)) (o_als o).
 
-(** which OTouch observations (in execution order) are taken right after a successful precompile
-    return, for an account that has not self-destructed: those must show agreeing views *)
-Fixpoint vflags (mx : Z) (p : prog) (r : rstate) {struct p} : list bool :=
+(** what each observation (in execution order) must show:
+    - an OTouch taken right after a successful precompile return, for an account that has not
+      self-destructed: agreeing balance views ([XTouch true]); any other OTouch: nothing;
+    - an OReadState: GetState returns the reference's slot value, GetCommittedState the value the
+      slot had when the transaction started (0 / 0 if the account does not exist). *)
+Inductive expect := XTouch (check : bool) | XRead (a : addr) (k : key) (v c : Z).
+
+Definition read_expect (t0 : store) (r : rstate) (a : addr) (k : key) : expect :=
+  match r_accs r a with
+  | Some _ => XRead a k (r_stor r a k) (stor t0 a k)
+  | None => XRead a k 0 0
+  end.
+
+Fixpoint vflags (mx : Z) (t0 : store) (p : prog) (r : rstate) {struct p} : list expect :=
   match p with
   | PFrame body _ =>
-      (fix go (l : list prog) (r : rstate) (zone : bool) : list bool :=
+      (fix go (l : list prog) (r : rstate) (zone : bool) : list expect :=
          match l with
          | [] => []
          | q :: t =>
              match q with
-             | OTouch a => (zone && negb (rs (r_get r a))) :: go t r zone
+             | OTouch a => XTouch (zone && negb (rs (r_get r a))) :: go t r zone
              | PPrecompile _ fails =>
                  go t (rrun mx q r) (negb fails && negb (mx <? r_calls r + 1))
-             | _ => vflags mx q r ++ go t (rrun mx q r) false
+             | _ => vflags mx t0 q r ++ go t (rrun mx q r) false
              end
          end) body r false
-  | OTouch _ => [false]
+  | OTouch _ => [XTouch false]
+  | OReadState a k => [read_expect t0 r a k]
   | _ => []
   end.
 
-Definition view_ok (flag : bool) (v : obs) : bool :=
-  negb flag || (snd v =? to_native (snd (fst v))).
+Definition view_ok (e : expect) (v : obs) : bool :=
+  match e with
+  | XTouch flag => negb flag || (snd v =? to_native (snd (fst v)))
+  | XRead a k x c => (fst (fst v) =? read_tag a k) && (snd (fst v) =? x) && (snd v =? c)
+  end.
 
-Fixpoint views_ok (fl : list bool) (vs : list obs) : bool :=
+Definition view_P (e : expect) (v : obs) : Prop :=
+  match e with
+  | XTouch true => snd v = to_native (snd (fst v))
+  | XTouch false => True
+  | XRead a k x c => v = (read_tag a k, x, c)
+  end.
+
+Fixpoint views_ok (fl : list expect) (vs : list obs) : bool :=
   match fl, vs with
   | [], [] => true
   | f :: fl', v :: vs' => view_ok f v && views_ok fl' vs'
@@ -70,14 +92,14 @@ Fixpoint views_ok (fl : list bool) (vs : list obs) : bool :=
 Definition P (mx : Z) (t0 : store) (body : list prog) (o : observed) : Prop :=
   let r := rrun mx (PFrame body false) (r_init t0) in
   final_matches (r_final r) (r_aux r) o = true /\
-  exists fl, fl = vflags mx (PFrame body false) (r_init t0) /\ length fl = length (o_views o) /\
-  forall i f v, nth_error fl i = Some f -> nth_error (o_views o) i = Some v -> f = true ->
-                snd v = to_native (snd (fst v)).
+  let fl := vflags mx t0 (PFrame body false) (r_init t0) in
+  length fl = length (o_views o) /\
+  forall i f v, nth_error fl i = Some f -> nth_error (o_views o) i = Some v -> view_P f v.
 
 Definition Pb (mx : Z) (t0 : store) (body : list prog) (o : observed) : bool :=
   let r := rrun mx (PFrame body false) (r_init t0) in
   final_matches (r_final r) (r_aux r) o &&
-  views_ok (vflags mx (PFrame body false) (r_init t0)) (o_views o).
+  views_ok (vflags mx t0 (PFrame body false) (r_init t0)) (o_views o).
 
 Lemma views_ok_len fl vs : views_ok fl vs = true -> length fl = length vs.
 Proof.
@@ -85,23 +107,30 @@ Proof.
   apply andb_true_iff in H as [_ H]. f_equal. auto.
 Qed.
 
-Lemma views_ok_nth fl vs : views_ok fl vs = true ->
-  forall i f v, nth_error fl i = Some f -> nth_error vs i = Some v -> f = true ->
-                snd v = to_native (snd (fst v)).
+Lemma view_ok_P e v : view_ok e v = true -> view_P e v.
 Proof.
-  revert vs; induction fl as [|f0 fl IH]; intros [|v0 vs] H i f v Hf Hv Ht; simpl in *; try discriminate.
+  destruct e as [[|]|a k x c]; simpl; intros H; auto.
+  - apply Z.eqb_eq in H. exact H.
+  - apply andb_true_iff in H as [H H3]. apply andb_true_iff in H as [H1 H2].
+    apply Z.eqb_eq in H1. apply Z.eqb_eq in H2. apply Z.eqb_eq in H3.
+    destruct v as [[v1 v2] v3]. simpl in *. congruence.
+Qed.
+
+Lemma views_ok_nth fl vs : views_ok fl vs = true ->
+  forall i f v, nth_error fl i = Some f -> nth_error vs i = Some v -> view_P f v.
+Proof.
+  revert vs; induction fl as [|f0 fl IH]; intros [|v0 vs] H i f v Hf Hv; simpl in *; try discriminate.
   - destruct i; discriminate.
   - apply andb_true_iff in H as [H0 H].
     destruct i as [|i]; simpl in *.
-    + inversion Hf; inversion Hv; subst. unfold view_ok in H0. simpl in H0.
-      apply Z.eqb_eq in H0. exact H0.
+    + inversion Hf; inversion Hv; subst. apply view_ok_P; exact H0.
     + eapply IH; eauto.
 Qed.
 
 Lemma Pb_sound mx t0 body o : Pb mx t0 body o = true -> P mx t0 body o.
 Proof.
   unfold Pb, P. intro H. apply andb_true_iff in H as [H1 H2].
-  split; [exact H1|]. eexists; split; [reflexivity|]. split.
+  split; [exact H1|]. split.
   - apply views_ok_len; exact H2.
   - apply views_ok_nth; exact H2.
 Qed.
